@@ -799,7 +799,6 @@ class ModuleVistor(NodeVisitor):
             if attr is not None:
                 attr.setDocstring(value)
                 self.builder.currentAttr = None
-        self.generic_visit(node)
 
 
     def visit_AsyncFunctionDef(self, node: ast.AsyncFunctionDef) -> None:
